@@ -658,7 +658,7 @@ def prepare(ctx):
 
 
 def theorems(ctx, translated):
-    ctx.audit_tree(["Model/Join.v", "Proofs/JoinP.v", "Props/C10.v"])
+    ctx.audit_tree(["Model/Join.v", "Proofs/JoinP.v", "Proofs/JoinCanon.v", "Props/C10.v"])
     ctx.prove_static("Props/C10.v", timeout=900)
     gp = ctx.build / "C10_Gen.v"
     shutil.copy(COQ / "GenProps" / "C10_Gen.v", gp)
